@@ -815,6 +815,43 @@ func (g *apiGen) lateGrowthGroupMod() string {
 	return gm
 }
 
+// ctSetterOrder: an ADD flow-mod whose single apply-actions instruction holds one conntrack action configured by a random
+// sequence (with repetition, in any order) of its builder methods: whatever the order, the LAST call of each kind decides
+func (g *apiGen) ctSetterOrder() string {
+	r := g.c.rng
+	ct := g.v()
+	g.add("%s=NewNXActionConnTrack()", ct)
+	for k := 2 + r.Intn(5); k > 0; k-- {
+		switch r.Intn(6) {
+		case 0:
+			g.add("$%s.Commit()", ct)
+		case 1:
+			g.add("$%s.Force()", ct)
+		case 2:
+			g.add("$%s.Table(%d)", ct, g.edge(0xff))
+		case 3, 4:
+			g.add("$%s.ZoneImm(%d)", ct, g.edge(0xffff))
+		default:
+			f := g.regField()
+			rg := g.v()
+			s := r.Intn(17)
+			g.add("%s=NewNXRange(%d,%d)", rg, s, s+15)
+			g.add("$%s.ZoneRange($%s,$%s)", ct, f, rg)
+		}
+	}
+	in := g.v()
+	g.add("%s=NewInstrApplyActions()", in)
+	g.add("$%s.AddAction($%s,0)", in, ct)
+	fm := g.v()
+	g.add("%s=NewFlowMod()", fm)
+	g.add("$%s.Xid=%d", fm, g.edge(0xffffffff))
+	g.add("$%s.Command=0", fm)
+	m := g.match(1)
+	g.add("$%s.Match=*$%s", fm, m)
+	g.add("$%s.AddInstruction($%s)", fm, in)
+	return fm
+}
+
 func init() {
 	apiGens = append(apiGens, func(g *apiGen) {
 		// single elements
@@ -839,6 +876,8 @@ func init() {
 		}
 		sn := g.sameNameFields()
 		g.emit(sn)
+		cs := g.ctSetterOrder()
+		g.emit(cs)
 		lg := g.lateGrowth()
 		g.emitAs("apix", lg)
 		lp := g.lateGrowthPacketOut()
